@@ -46,8 +46,12 @@ def r1_r3_validation(ctx):
     loops = [n for n in astx.walk_own(f.node) if isinstance(n, ast.For)]
     good = len(loops) == 1 and not any(isinstance(n, (ast.Break, ast.Continue, ast.Return)) for n in astx.walk_own(f.node))
     ctx.check(good, f, loops[0] if loops else f.node, "validation loop has no exit other than raise", "", "the validation loop can stop before the last ballot")
-    ctx.check(all(astx.raise_type(r) == "TypeError" for r in astx.raises_in(f.node)) and len(astx.raises_in(f.node)) >= 4, f, f.node,
-              "all four rejections raise TypeError", "", "a rejection raises another type or is missing")
+    wrong = [r for r in astx.raises_in(f.node) if astx.raise_type(r) != "TypeError"]
+    if wrong:
+        ctx.violated(f, wrong[0], "all four rejections raise TypeError", f"a rejection raises {astx.raise_type(wrong[0])}")
+    else:
+        # fewer than four raise statements: one was dropped (a small edit, reported) or the tests were gathered elsewhere
+        ctx.check_shape(len(astx.raises_in(f.node)) >= 4, f, f.node, "all four rejections raise TypeError", "", "a rejection raises another type or is missing")
 
 
 def r4_totals(ctx):
